@@ -112,6 +112,9 @@ QUICK_SHAPES = [
     _s("int-w", W("x", "int"), W("y"), ascii=True, holes=(2, 1), example=("5", "a"), rewritten=True),
     _s("float", W("f", "float"), ascii=True, holes=(3,), example=("1.5",), rewritten=True),
     _s("float-w", W("f", "float"), W("y"), ascii=True, holes=(2, 1), deep=(3, 1), example=("1", "."), rewritten=True),
+    # a literal '.' right after a float wildcard: what the builder writes for the float decides how the dot is read back
+    _s("float-dot-digit", W("f", "float"), L(".7/i"), ascii=True, holes=(3,), deep=(4,), example=("3.0",)),
+    _s("float-dot-lit", L("r/"), W("f", "float"), L(".x"), ascii=True, holes=(3,), deep=(4,), example=("2.0",), rewritten=True),
     _s("path", W("p", "path"), flavour=0, holes=(4,), example=("a//c",)),
     _s("lit-path", L("d/"), W("p", "path"), flavour=2, holes=(4,), example=("a/b",)),
     _s("w-path", W("x"), L("/"), W("p", "path"), holes=(1, 3), example=("a", "b/c")),
@@ -121,6 +124,7 @@ QUICK_SHAPES = [
     _s("rex-anon", W(None, "rex"), L("x"), rule="/<rex((fo)|(ba))>x", holes=(3,), example=("ba",)),
 ]
 THOROUGH_SHAPES = [
+    _s("float-dot-int", W("f", "float"), L("."), W("n", "int"), ascii=True, holes=(3, 1), deep=(3, 1), example=("3.0", "7")),
     _s("anon-int-w", W(None, "int"), L("/"), W("y"), flavour=0, ascii=True, deep=(3, 2), example=("5", "q"), rewritten=True),
     _s("lit-float-lit", L("v"), W("f", "float"), L("/x"), flavour=2, ascii=True, deep=(4,), example=("2",), rewritten=True),
     _s("lit-w-lit-w-lit", L("a/"), W("x"), L("/b/"), W("y"), L("/c"), flavour=3, deep=(3, 3), example=("1", "2")),
@@ -281,7 +285,7 @@ def queries(tier):
             out.append(Q("holes/%s" % sh.tag, make_holes(sh, sizes),
                          "rule %s; path = the rule's literals %r with a fully symbolic text (%s) of len <= %s at the "
                          "wildcards" % (sh.text, sh.literals, alpha, " / ".join(map(str, sizes))),
-                         timeout=200 if not T else 900, expect_cover=expect, family="holes",
+                         timeout=(600 if sh.tag.startswith("float-dot") else 200) if not T else 1200, expect_cover=expect, family="holes",
                          config={"rule": sh.text, "literals": sh.literals, "hole_len": sizes}))
         if sh.free:
             n = nlit + sh.free + (1 if T else 0)
